@@ -149,6 +149,27 @@ class C02(Prop):
             out.append(Case("time", fl, fields, evs, {"kind": "time-two-input", "cut": cut}))
         # two real threads at lock granularity (suite `coop`): the emitter / the executor against unsubscribe()
         out += cg.cases(tier, seed)
+        # the same with REAL blocking (event `ru <event>`: another OS thread calls unsubscribe() while the probe is inside a
+        # delivery of that event; no cooperative scheduler in between, a try_lock really fails)
+        for pipe in (["hot", "0"], ["map", "add1", ["hot", "0"]], ["filter", "true", ["hot", "0"]],
+                     ["merge", ["hot", "0"], ["hot", "1"]], ["scan", "add", "0", ["hot", "0"]]):
+            for tail in ([["emit", "0", "c"]], [["emit", "0", ["e", "5"]]], [["emit", "0", ["n", "8"]], ["emit", "0", "c"]],
+                         [["emit", "0", ["n", "8"]]]):
+                for pre in ([], [["emit", "0", ["n", "1"]]]):
+                    evs = [["sub"]] + pre + [["ru", "emit", "0", ["n", "7"]]] + tail
+                    out.append(Case("time", "threads", [("pipe", [pipe])], evs, {"kind": "race-unsub"}))
+        # unsubscribe() arriving WHILE a delivery to that very subscriber is in flight on another thread (the subscriber's
+        # callback is a yield point, `pyield`), over pipelines WITHOUT a scheduler: the unsubscribing thread waits for the
+        # subscriber's cell; after it has returned neither an item nor a TERMINAL is delivered (seed C02-12: a try_lock in
+        # Subscriber::unsubscribe raised a flag that only the item path honoured)
+        for pipe in (["hot", "0"], ["map", "add1", ["hot", "0"]], ["filter", "true", ["hot", "0"]],
+                     ["take", "9", ["hot", "0"]], ["fin", ["hot", "0"]]):
+            for tail in ([["emit", "0", "c"]], [["emit", "0", ["e", "5"]]], [["emit", "0", ["n", "8"]], ["emit", "0", "c"]]):
+                for pre in ([], [["emit", "0", ["n", "1"]]]):
+                    for k in range(0, 7):
+                        c = cg.mk(pipe, pre + [["par", str(k), ["emit", "0", ["n", "7"]], ["unsub"]]] + tail, "coop-bare")
+                        c.fields = [("pyield", ["1"])] + c.fields
+                        out.append(c)
         # merge_all / group_by / share (theorems C02M_* over their own models): the histories of the C05 / C20 /
         # C11 populations that unsubscribe somewhere; full lines compared from the first unsubscription on
         import importlib
@@ -272,7 +293,7 @@ class C02(Prop):
 
     def _cut(self, case):
         for k, e in enumerate(case.events):
-            if e[0] in ("unsub", "gunsub"):
+            if e[0] in ("unsub", "gunsub", "ru"):
                 return k
         return len(case.events)
 
@@ -297,6 +318,8 @@ class C02(Prop):
         if f:
             return f
         cut = self._cut(case)
+        if cut < len(case.events) and case.events[cut][0] == "ru":
+            cut += 1       # (`ru`: the delivery of that event is legitimate, the unsubscription returns after it)
         for k in range(cut, len(case.events)):
             b = lines.get(k)
             if b is None:
